@@ -10,6 +10,11 @@
 (* emptyQueue call began (C11), lost wake-up as a state predicate (C07).    *)
 (* processIf (accepting odd events) puts the declined ones back in front;   *)
 (* defect "putback_end" puts them at the back (violates ProducerOrder).     *)
+(* processUntil (stops at the first even event) puts the remainder back in  *)
+(* front.  waitFor = wait whose sleep can also end by a time-out step,      *)
+(* after which the predicate is evaluated once more under the mutex and is  *)
+(* the result; a false result with no DisableQueueNotify alive is judged    *)
+(* like emptyQueue() = true (C11).                                          *)
 (* Defects: "dqn_unlocked" = ~DisableQueueNotify decrements outside the     *)
 (* mutex (the code before the D5 repair); "empty_order" = emptyQueue reads  *)
 (* the counter before the list.                                             *)
@@ -44,8 +49,9 @@ Start(t) ==
   /\ Goto(t, CASE Op(t).k = "enq" -> "e_lock" [] Op(t).k = "dqn_on" -> "d_inc" [] Op(t).k = "dqn_off" -> (IF Fixed("dqn_unlocked") THEN "d_lock" ELSE "d_dec")
                [] Op(t).k = "process" -> "p_pre" [] Op(t).k = "processOne" -> "p_pre" [] Op(t).k = "take" -> "t_pre"
                [] Op(t).k = "clear" -> "c_pre" [] Op(t).k = "empty" -> "o_q" [] Op(t).k = "wait" -> "w_lock"
-               [] Op(t).k = "processIf" -> "i_pre" [] Op(t).k = "peek" -> "k_pre")
-  /\ snap' = [snap EXCEPT ![t] = IF Op(t).k = "empty" THEN enqDone ELSE @]
+               [] Op(t).k = "processIf" -> "i_pre" [] Op(t).k = "processUntil" -> "i_pre" [] Op(t).k = "peek" -> "k_pre"
+               [] Op(t).k = "waitFor" -> "w_lock")
+  /\ snap' = [snap EXCEPT ![t] = IF Op(t).k \in {"empty", "waitFor"} THEN enqDone ELSE @]
   /\ UNCHANGED <<q, emptyCtr, notifyCtr, mtx, waitset, woken, prog, ip, tmp, rd, status, enqDone, bad>>
 
 \* ---- enqueue(e): lock; splice; unlock; doCanProcess() unlocked; notify
@@ -117,7 +123,9 @@ ILoop(t) == /\ pc[t] = "i_loop"
                     IF e % 2 = 1
                     THEN /\ bad' = IF status[e] # "held" THEN "double-consume" ELSE bad
                          /\ status' = SetStatus({e}, "dispatched") /\ tmp' = [tmp EXCEPT ![t] = Tail(@)] /\ UNCHANGED <<pc, rd>>
-                    ELSE tmp' = [tmp EXCEPT ![t] = Tail(@)] /\ rd' = [rd EXCEPT ![t] = Append(@, e)] /\ UNCHANGED <<pc, status, bad>>
+                    ELSE IF Op(t).k = "processUntil"      \* stop here: this event and everything behind it goes back
+                         THEN tmp' = [tmp EXCEPT ![t] = <<>>] /\ rd' = [rd EXCEPT ![t] = tmp[t]] /\ UNCHANGED <<pc, status, bad>>
+                         ELSE tmp' = [tmp EXCEPT ![t] = Tail(@)] /\ rd' = [rd EXCEPT ![t] = Append(@, e)] /\ UNCHANGED <<pc, status, bad>>
             /\ UNCHANGED Sh /\ UNCHANGED <<prog, ip, enqDone, snap>>
 IPbLock(t) == pc[t] = "i_pblock" /\ mtx = 0 /\ mtx' = t /\ Goto(t, "i_pb") /\ UNCHANGED <<q, emptyCtr, notifyCtr, waitset, woken, prog, ip, tmp, rd>> /\ UNCHANGED Gh
 IPb(t) == /\ pc[t] = "i_pb" /\ mtx = t /\ mtx' = 0
@@ -153,6 +161,19 @@ WCnt(t) == /\ pc[t] = "w_cnt" /\ IF notifyCtr = 0 THEN Goto(t, "w_unlock") ELSE 
 WBlock(t) == pc[t] = "w_block" /\ mtx' = 0 /\ waitset' = waitset \cup {t} /\ Goto(t, "w_sleep") /\ UNCHANGED <<q, emptyCtr, notifyCtr, woken, prog, ip, tmp, rd>> /\ UNCHANGED Gh
 WWake(t) == pc[t] = "w_sleep" /\ t \in woken /\ woken' = woken \ {t} /\ Goto(t, "w_lock") /\ UNCHANGED <<q, emptyCtr, notifyCtr, mtx, waitset, prog, ip, tmp, rd>> /\ UNCHANGED Gh
 WUnlock(t) == pc[t] = "w_unlock" /\ mtx = t /\ mtx' = 0 /\ Done(t) /\ UNCHANGED <<q, emptyCtr, notifyCtr, waitset, woken, prog, tmp, rd>> /\ UNCHANGED Gh
+\* ---- waitFor(): the same loop; the sleep may also end by the time-out, then: lock; return pred()
+WTimeout(t) == /\ pc[t] = "w_sleep" /\ Op(t).k = "waitFor" /\ waitset' = waitset \ {t} /\ woken' = woken \ {t} /\ Goto(t, "wt_lock")
+               /\ UNCHANGED <<q, emptyCtr, notifyCtr, mtx, prog, ip, tmp, rd>> /\ UNCHANGED Gh
+WtLock(t) == pc[t] = "wt_lock" /\ mtx = 0 /\ mtx' = t /\ Goto(t, "wt_q") /\ UNCHANGED <<q, emptyCtr, notifyCtr, waitset, woken, prog, ip, tmp, rd>> /\ UNCHANGED Gh
+WtQ(t) == /\ pc[t] = "wt_q" /\ mtx = t /\ IF q # <<>> THEN Goto(t, "wt_cnt") ELSE Goto(t, "wt_ec")
+          /\ UNCHANGED Sh /\ UNCHANGED <<prog, ip, tmp, rd>> /\ UNCHANGED Gh
+\* queue seen empty and nobody processing: the result is false; judged when no DisableQueueNotify is alive at this moment
+WtEc(t) == /\ pc[t] = "wt_ec" /\ mtx = t
+           /\ IF emptyCtr # 0 THEN Goto(t, "wt_cnt") /\ UNCHANGED <<mtx, ip, bad>>
+              ELSE mtx' = 0 /\ Done(t) /\ Verdict(t, notifyCtr = 0)
+           /\ UNCHANGED <<q, emptyCtr, notifyCtr, waitset, woken, prog, tmp, rd, status, enqDone, snap>>
+WtCnt(t) == /\ pc[t] = "wt_cnt" /\ mtx = t /\ mtx' = 0 /\ Done(t)      \* true iff notification is enabled; false here says nothing about the queue
+            /\ UNCHANGED <<q, emptyCtr, notifyCtr, waitset, woken, prog, tmp, rd>> /\ UNCHANGED Gh
 
 Step(t) == Start(t) \/ ELock(t) \/ ECs(t) \/ NQ(t) \/ NEc(t) \/ NCnt(t) \/ NNotify(t) \/ NEnd(t)
            \/ DInc(t) \/ DLock(t) \/ DDec(t) \/ DCnt(t) \/ DQ(t) \/ DEc(t)
@@ -161,14 +182,15 @@ Step(t) == Start(t) \/ ELock(t) \/ ECs(t) \/ NQ(t) \/ NEc(t) \/ NCnt(t) \/ NNoti
            \/ OFirst(t) \/ OSecond(t)
            \/ IPre(t) \/ IInc(t) \/ ILock(t) \/ ICs(t) \/ ILoop(t) \/ IPbLock(t) \/ IPb(t) \/ IDec(t) \/ KPre(t) \/ KLock(t) \/ KCs(t)
            \/ WLock(t) \/ WQ(t) \/ WEc(t) \/ WCnt(t) \/ WBlock(t) \/ WWake(t) \/ WUnlock(t)
+           \/ WTimeout(t) \/ WtLock(t) \/ WtQ(t) \/ WtEc(t) \/ WtCnt(t)
 Next == (\E t \in Threads : Step(t) /\ lastT' = t) /\ UNCHANGED prog
 
 \* ---- properties
 Ledger == bad = "ok"                                                       \* C06 no double consume, C11 implication
 OnePlace == \A e \in Events : /\ (status[e] = "pending") = (\E i \in 1..Len(q) : q[i] = e)
                               /\ (status[e] = "held") = (\E t \in Threads : (\E i \in 1..Len(tmp[t]) : tmp[t][i] = e) \/ (\E i \in 1..Len(rd[t]) : rd[t][i] = e))
-Quiescent == \A t \in Threads : (pc[t] = "idle" /\ ~HasOp(t)) \/ pc[t] = "w_sleep"
-Sleeping == {t \in Threads : pc[t] = "w_sleep"}
+Quiescent == \A t \in Threads : (pc[t] = "idle" /\ ~HasOp(t)) \/ (pc[t] = "w_sleep" /\ Op(t).k = "wait")
+Sleeping == {t \in Threads : pc[t] = "w_sleep" /\ Op(t).k = "wait"}
 \* C07: a final state with pending events, notification enabled and every waiter asleep is a lost wake-up
 NoLostWakeup == ~(Quiescent /\ Sleeping # {} /\ woken = {} /\ q # <<>> /\ notifyCtr = 0)
 \* one producer's events are pending in the order it enqueued them (C06 order), for every producer
